@@ -8,7 +8,7 @@ import re
 from ..core import Ctx, RuleResult, finding, short
 from ..model import AnalysisError, norm
 from ..mutants import Mut
-from ..rules import accum, dim, noop, posbound
+from ..rules import accum, optcall, dim, noop, posbound
 from ..rules.geom import LOOP_INDEX, ClassGeom
 from ..rules.util import lin_str, linear
 from ..tables import C09_DIM_EXCEPTIONS, C09_SIZE_EXCEPTIONS
@@ -426,6 +426,7 @@ def run(ctx: Ctx):
         _empty_guard(ctx),
         accum.run_accum(p, "C09.9", "C09", floor=3),
         rule_edit_row_range(ctx),
+        optcall.run_optcall(p, "C09.11", ("urwid.widget",), floor=35),
     ]
 
 
@@ -437,6 +438,9 @@ _PIL = "urwid/widget/pile.py"
 _COL = "urwid/widget/columns.py"
 _BOX = "urwid/widget/box_adapter.py"
 MUTANTS = [
+    Mut("popup-cursor-forwarded-blindly", "urwid/widget/popup.py", "PopUpTarget.get_cursor_coords", "        if not hasattr(self._current_widget, \"get_cursor_coords\"):\n            return None\n", "", "OPTCALL|widget.popup.PopUpTarget.get_cursor_coords"),
+    Mut("popup-move-forwarded-blindly", "urwid/widget/popup.py", "PopUpTarget.move_cursor_to_coords", "        if not hasattr(self._current_widget, \"move_cursor_to_coords\"):\n            return True\n", "", "OPTCALL|widget.popup.PopUpTarget.move_cursor_to_coords"),
+    Mut("pile-move-unguarded", "urwid/widget/pile.py", "Pile.keypress", "            if not hasattr(self.focus, \"move_cursor_to_coords\"):\n                return None\n", "", "OPTCALL|widget.pile.Pile.keypress"),
     Mut("edit-first-row-from-caption-newlines", "urwid/widget/edit.py", "Edit.move_cursor_to_coords", "_top_x, top_y = self.position_coords(maxcol, 0)", "top_y = self.caption.count(\"\\n\")", "KIND|widget.edit.Edit.move_cursor_to_coords"),
     Mut("filler-move-row-vs-cols", _FIL, "Filler.move_cursor_to_coords", "row >= maxrow - bottom", "row >= maxcol - bottom", "DIM|widget.filler.Filler.move_cursor_to_coords"),
     Mut("filler-mouse-size-drops-bottom", _FIL, "Filler.mouse_event", "return self._original_widget.mouse_event((maxcol, maxrow - top - bottom), event", "return self._original_widget.mouse_event((maxcol, maxrow - top), event", "GEOM|widget.filler.Filler.mouse_event"),
